@@ -1,6 +1,15 @@
-(* Termination bound for PipeConc: a potential function that strictly decreases at every step of a
-   reachable state (uses the invariant of PipeInv.v only to know that a woken thread finds its
-   condition true, that live >= 1 when a buffer is retired, and the list lengths). *)
+(* Termination bound for PipeConc.  Spurious wake-ups are transitions of the system, so a schedule can be
+   arbitrarily long (wake, re-test, sleep, wake, ...); what is bounded is the number of steps that are not
+   caused by a spurious wake-up:   length sched <= B + 2 * (number of spurious wake-ups in sched).
+
+   Potential: Phi = Phi0 + 2 * nfail, where Phi0 is the rank function of the development without spurious
+   wake-ups (so B = Phi0 (init) is the old explicit bound) and nfail counts the threads that are Awake while
+   their predicate is false -- exactly the threads whose next step is "re-test, go back to sleep".
+     - a step of a real thread decreases Phi by at least 1 (the re-test that fails: Phi0 + 1, nfail - 1);
+     - a spurious wake-up increases Phi by at most 1 (Phi0 - 1, nfail + 1).
+   No step of another thread can make the predicate of an Awake thread false (only the thread itself hands
+   its buffer over), so nfail never increases at a real step.  The invariant of PipeInv.v is used only for
+   the list lengths, live >= 1 when a buffer is retired, and the visit counter. *)
 From Wencry Require Import Bytes FileModel PipeConc PipeProps PipeLemmas PipeInv.
 From Coq Require Import ZifyNat.
 Local Open Scope nat_scope.
@@ -18,6 +27,12 @@ Definition irank (T : nat) (p : ipc) : nat :=
   end.
 Definition sumf {A} (f : A -> nat) (l : list A) : nat := fold_right (fun a acc => f a + acc) 0 l.
 Definition brem (b : buf) : nat := b_total b - b_now b.
+(* 1 iff the thread is Awake and will go back to sleep at its next step *)
+Definition wfail (b : buf) (w : wpc) : nat :=
+  match w with W_Awake _ => if ready_or_inv (b_st b) then 0 else 1 | _ => 0 end.
+Definition iofail (p : ipc) (b : buf) : nat :=
+  match p with I_Awake => if upd_or_empty (b_st b) then 0 else 1 | _ => 0 end.
+Definition wfl (bs : list buf) (ws : list wpc) (i : nat) : nat := wfail (nth i bs empty_buf) (nth i ws W_Done).
 
 Lemma sumf_set_nth {A} (f : A -> nat) (d x : A) : forall i l, i < length l ->
   sumf f (set_nth i x l) + f (nth i l d) = sumf f l + f x.
@@ -36,6 +51,40 @@ Proof.
     + rewrite nth_set_nth_eq by exact Hi. reflexivity.
     + rewrite nth_set_nth_neq by congruence. apply Hoth. exact Hne.
 Qed.
+
+Lemma sumf_seq_ext (f g : nat -> nat) : forall n a, (forall k, a <= k < a + n -> g k = f k) ->
+  sumf g (seq a n) = sumf f (seq a n).
+Proof.
+  induction n as [|n IH]; intros a H; cbn [seq sumf fold_right]; [reflexivity|].
+  rewrite (H a) by lia. f_equal. apply IH. intros k Hk. apply H. lia.
+Qed.
+
+(* f and g differ at most at i *)
+Lemma sumf_seq_upd (f g : nat -> nat) i : forall n a, a <= i < a + n ->
+  (forall k, a <= k < a + n -> k <> i -> g k = f k) ->
+  sumf g (seq a n) + f i = sumf f (seq a n) + g i.
+Proof.
+  induction n as [|n IH]; intros a Hi H; [lia|]. cbn [seq sumf fold_right].
+  destruct (Nat.eq_dec a i) as [->|Hne].
+  - assert (E : sumf g (seq (Datatypes.S i) n) = sumf f (seq (Datatypes.S i) n)).
+    { apply sumf_seq_ext. intros k Hk. apply H; lia. }
+    unfold sumf in E. rewrite E. lia.
+  - rewrite (H a) by lia. specialize (IH (Datatypes.S a) ltac:(lia)).
+    assert (H' : forall k, Datatypes.S a <= k < Datatypes.S a + n -> k <> i -> g k = f k) by (intros k Hk Hki; apply H; lia).
+    specialize (IH H'). unfold sumf in IH. lia.
+Qed.
+
+Lemma sumf_zero {A} (f : A -> nat) : forall l, (forall a, f a = 0) -> sumf f l = 0.
+Proof. induction l as [|a l IH]; intros H; cbn [sumf fold_right]; [reflexivity|]. rewrite H. apply IH. exact H. Qed.
+
+Lemma wfail_le1 b w : wfail b w <= 1.
+Proof. unfold wfail. destruct w; try lia. destruct (ready_or_inv (b_st b)); lia. Qed.
+Lemma iofail_le1 p b : iofail p b <= 1.
+Proof. unfold iofail. destruct p; try lia. destruct (upd_or_empty (b_st b)); lia. Qed.
+Lemma wfail_st b b' w : b_st b' = b_st b -> wfail b' w = wfail b w.
+Proof. intros E. unfold wfail. rewrite E. reflexivity. Qed.
+Lemma iofail_st p b b' : b_st b' = b_st b -> iofail p b' = iofail p b.
+Proof. intros E. unfold iofail. rewrite E. reflexivity. Qed.
 
 Section Term.
 Variable S : Type.
@@ -58,30 +107,27 @@ Notation InvQR := (InvQR S tr c ispadding T sigma0 ls dS).
 Notation BufInv := (BufInv S tr c ispadding T sigma0 ls dS).
 Notation IdleInv := (IdleInv S tr c ispadding T sigma0 ls dS).
 
-Definition Phi (s : state) : nat :=
+(* the rank function of the system without spurious wake-ups *)
+Definition Phi0 (s : state) : nat :=
   8 * (length (input S s) + live S s) + irank T (io S s) +
   6 * (sumf ld_total (input S s) + sumf brem (bufs S s)) + sumf wrank (wpcs S s).
+(* number of threads that are Awake and will go back to sleep *)
+Definition nfw (bs : list buf) (ws : list wpc) : nat := sumf (wfl bs ws) (seq 0 T).
+Definition nfail (s : state) : nat := nfw (bufs S s) (wpcs S s) + iofail (io S s) (getb s (turn S s)).
+Definition Phi (s : state) : nat := Phi0 s + 2 * nfail s.
 
-(* a woken worker finds its buffer READY or INV *)
-Lemma BufInv_awake n o i b f x : BufInv n o i b (W_Awake f) x -> ready_or_inv (b_st b) = true.
-Proof.
-  intros Hb. destruct (is_own o) eqn:Eo.
-  - apply BufInv_own in Hb; [|exact Eo]. destruct Hb as (p & _ & _ & Hc & _). exfalso.
-    unfold own_ctl in Hc. destruct n; destruct Hc as [_ Hc]; exact Hc.
-  - apply BufInv_idle in Hb; [|exact Eo]. destruct Hb as [Hb _].
-    unfold PipeInv.IdleInv in Hb. destruct n as [|n'].
-    + destruct Hb as (_ & _ & _ & _ & Hf & _). contradiction.
-    + destruct (n' * T + i <? m ls).
-      * destruct Hb as [_ Hc]. unfold hold_ctl in Hc. destruct (b_st b); try contradiction; try reflexivity.
-        destruct Hc as [Hc _]. contradiction.
-      * destruct Hb as (Hs & _). rewrite Hs. reflexivity.
-Qed.
+Lemma nfw_ext bs ws bs' ws' : (forall k, k < T -> wfl bs' ws' k = wfl bs ws k) -> nfw bs' ws' = nfw bs ws.
+Proof. intros H. unfold nfw. apply sumf_seq_ext. intros k Hk. apply H. lia. Qed.
+Lemma nfw_upd bs ws bs' ws' i : i < T -> (forall k, k < T -> k <> i -> wfl bs' ws' k = wfl bs ws k) ->
+  nfw bs' ws' + wfl bs ws i = nfw bs ws + wfl bs' ws' i.
+Proof. intros Hi H. unfold nfw. apply sumf_seq_upd; [lia|]. intros k Hk Hne. apply H; lia. Qed.
 
-Lemma wlocal_decr n o i b w x b' w' x' wk :
-  BufInv n o i b w x -> wlocal S tr b w x = Some (b', w', x', wk) ->
-  6 * brem b' + wrank w' < 6 * brem b + wrank w.
+(* the local step of a worker: strictly down, also when a spuriously woken worker goes back to sleep *)
+Lemma wlocal_decr b w x b' w' x' wk :
+  wlocal S tr b w x = Some (b', w', x', wk) ->
+  6 * brem b' + wrank w' + 2 * wfail b' w' < 6 * brem b + wrank w + 2 * wfail b w.
 Proof.
-  intros Hb H. unfold wlocal in H. destruct w as [| | | | |f|f| |]; try discriminate.
+  intros H. unfold wlocal in H. destruct w as [| | | | |f|f| |]; try discriminate.
   - injection H as <- <- <- <-. cbn. lia.
   - injection H as <- <- <- <-. unfold wait_pc. destruct (ready_or_inv (b_st b)); cbn; lia.
   - destruct (b_now b <? b_total b) eqn:E; injection H as <- <- <- <-.
@@ -89,11 +135,23 @@ Proof.
     + cbn. lia.
   - destruct (b_st b); injection H as <- <- <- <-; unfold brem; cbn; lia.
   - injection H as <- <- <- <-. unfold wait_pc. destruct (ready_or_inv (b_st b)); cbn; lia.
-  - apply BufInv_awake in Hb. injection H as <- <- <- <-. unfold wait_pc. rewrite Hb. destruct f; cbn; lia.
+  - injection H as <- <- <- <-. unfold wait_pc, wfail. destruct (ready_or_inv (b_st b)); destruct f; cbn; lia.
   - destruct (b_st b); try (injection H as <- <- <- <-; cbn; lia).
     destruct (b_now b <? b_total b) eqn:E; injection H as <- <- <- <-.
     + apply Nat.ltb_lt in E. unfold brem, take_b. cbn. lia.
     + cbn. lia.
+Qed.
+
+Lemma wlocal_st_move b w x b' w' x' wk :
+  wlocal S tr b w x = Some (b', w', x', wk) -> st_move b b' wk.
+Proof.
+  intros H. unfold wlocal in H. unfold st_move. destruct w as [| | | | |f|f| |]; try discriminate;
+    try (injection H as <- <- <- <-; left; split; reflexivity).
+  - destruct (b_now b <? b_total b); injection H as <- <- <- <-; left; split; reflexivity.
+  - destruct (b_st b) eqn:Est; injection H as <- <- <- <-; try (left; split; [reflexivity|exact Est || reflexivity]).
+    right. repeat split; reflexivity.
+  - destruct (b_st b) eqn:Est; try (injection H as <- <- <- <-; left; split; [reflexivity|exact Est]).
+    destruct (b_now b <? b_total b); injection H as <- <- <- <-; left; (split; [reflexivity|exact Est]).
 Qed.
 
 Lemma irank_wake p t i (wk : bool) : irank T (if wk then wake_p p t i else p) <= irank T p.
@@ -108,7 +166,8 @@ Proof.
   destruct (step_worker_spec S tr tr_event dS s i s' evs) as (b' & w' & x' & wk & Hloc & Eb & Ew & Ex & Eio & Hfr);
     try lia; [exact H|].
   destruct Hfr as (Lb' & Lw' & Lx' & Et & Eo & El & Ei & Eout & Ec & Hoth).
-  pose proof (wlocal_decr _ _ _ _ _ _ _ _ _ _ (Hbuf i Hi) Hloc) as Hd.
+  pose proof (wlocal_decr _ _ _ _ _ _ _ Hloc) as Hd.
+  pose proof (wlocal_st_move _ _ _ _ _ _ _ Hloc) as Hmv.
   assert (Ebs : bufs S s' = set_nth i b' (bufs S s)).
   { rewrite <- Eb. apply (list_upd_eq empty_buf); [exact Lb'|lia|]. intros k Hk. apply (Hoth k Hk). }
   assert (Ews : wpcs S s' = set_nth i w' (wpcs S s)).
@@ -116,8 +175,24 @@ Proof.
   pose proof (sumf_set_nth brem empty_buf b' i (bufs S s) ltac:(lia)) as Sb.
   pose proof (sumf_set_nth wrank W_Done w' i (wpcs S s) ltac:(lia)) as Sw.
   pose proof (irank_wake (io S s) (turn S s) i wk) as Hi'.
-  unfold Phi. rewrite Ei, El, Eio, Ebs, Ews.
-  fold (getb s i) in Sb. fold (getw s i) in Sw. lia.
+  (* sleepers-to-be among the workers: only worker i changes *)
+  assert (Sf : nfw (bufs S s') (wpcs S s') + wfail (getb s i) (getw s i) = nfw (bufs S s) (wpcs S s) + wfail b' w').
+  { pose proof (nfw_upd (bufs S s) (wpcs S s) (bufs S s') (wpcs S s') i Hi) as Hu.
+    unfold wfl in Hu. fold (getb s' i) (getw s' i) (getb s i) (getw s i) in Hu. rewrite Eb, Ew in Hu. apply Hu.
+    intros k Hk Hne. destruct (Hoth k Hne) as (E1 & E2 & _). unfold PipeConc.getb, PipeConc.getw in E1, E2.
+    rewrite E1, E2. reflexivity. }
+  (* the I/O thread: a notification makes its predicate true *)
+  assert (If : iofail (io S s') (getb s' (turn S s')) <= iofail (io S s) (getb s (turn S s))).
+  { rewrite Et, Eio. destruct Hmv as [[-> Hs]|(-> & Hs & Hs')].
+    - destruct (Nat.eq_dec (turn S s) i) as [E|E].
+      + rewrite E, Eb. rewrite (iofail_st _ _ _ Hs). lia.
+      + destruct (Hoth _ E) as (-> & _). lia.
+    - destruct (Nat.eq_dec (turn S s) i) as [E|E].
+      + rewrite E, Eb. unfold iofail at 1. rewrite Hs'. cbn [upd_or_empty]. destruct (wake_p (io S s) i i); apply Nat.le_0_l.
+      + destruct (Hoth _ E) as (-> & _). unfold wake_p. apply Nat.eqb_neq in E. rewrite E.
+        destruct (io S s); lia. }
+  fold (getb s i) in Sb. fold (getw s i) in Sw. rewrite <- Ebs in Sb. rewrite <- Ews in Sw. rewrite <- Eio in Hi'.
+  unfold Phi, Phi0, nfail. rewrite Ei, El. lia.
 Qed.
 
 Lemma join_rank s k : length (wpcs S s) = T ->
@@ -132,6 +207,8 @@ Proof.
   rewrite (skipn_nth_cons W_Done k _ Hlt) in E. unfold PipeConc.getw in Hk. rewrite Hk in E.
   cbn [first_unfinished] in E. apply first_unfinished_bound in E. lia.
 Qed.
+Lemma join_iofail s k b : iofail (join_from S s k) b = 0.
+Proof. unfold join_from. destruct (first_unfinished _ _); reflexivity. Qed.
 
 Lemma sumf_wake_worker s t : sumf wrank (wpcs S (wake_worker S s t)) <= sumf wrank (wpcs S s).
 Proof.
@@ -146,100 +223,189 @@ Lemma phi_io q r s s' evs :
   InvQR q r s -> step_io S c ispadding s = Some (s', evs) -> Phi s' < Phi s.
 Proof.
   intros Hinv H. pose proof Hinv as (Lb & Lw & Lx & Hr & Ht & Hio & Hbuf).
-  pose proof (Hbuf r Hr) as Hbr. rewrite iot_self in Hbr.
-  unfold step_io in H. unfold IoInv in Hio. unfold Phi.
-  destruct (io S s) eqn:Eio; cbn [post_fin] in Hbr; try discriminate.
-  - unfold i_wait in H. destruct (upd_or_empty _); injection H as <- _; cbn [set_io io input live bufs wpcs irank]; lia.
-  - destruct Hbr as [_ Hpre]. cbn [pre_ok] in Hpre. unfold i_wait in H. rewrite Ht in H.
-    assert (E : upd_or_empty (b_st (getb s r)) = true) by (destruct Hpre as [-> | ->]; reflexivity).
-    rewrite E in H. injection H as <- _. cbn [set_io io input live bufs wpcs irank]. lia.
-  - destruct (b_st _); injection H as <- _; cbn [set_io io input live bufs wpcs irank]; lia.
-  - destruct (export c ispadding _ _); injection H as <- _; cbn [set_io io input live bufs wpcs irank]; lia.
-  - destruct (over S s); [injection H as <- _; cbn [set_io io input live bufs wpcs irank Nat.eqb]; lia|].
-    destruct (input S s) as [|l rest]; injection H as <- _; cbn [io input live bufs wpcs irank Nat.eqb length].
+  unfold step_io in H. unfold IoInv in Hio. unfold Phi, Phi0, nfail.
+  destruct (io S s) eqn:Eio; try discriminate.
+  - (* I_WaitUpdate *)
+    unfold i_wait in H. destruct (upd_or_empty _); injection H as <- _;
+      cbn [set_io io input live bufs wpcs turn irank iofail]; lia.
+  - (* I_Awake: the predicate holds, or back to sleep *)
+    unfold i_wait in H. cbn [iofail].
+    destruct (upd_or_empty (b_st (getb s (turn S s)))); injection H as <- _;
+      cbn [set_io io input live bufs wpcs turn irank iofail]; lia.
+  - destruct (b_st _); injection H as <- _; cbn [set_io io input live bufs wpcs turn irank iofail]; lia.
+  - destruct (export c ispadding _ _); injection H as <- _; cbn [set_io io input live bufs wpcs turn irank iofail]; lia.
+  - (* I_Load *)
+    destruct (over S s); [injection H as <- _; cbn [set_io io input live bufs wpcs turn irank iofail Nat.eqb]; lia|].
+    destruct (input S s) as [|l rest]; injection H as <- _; cbn [io input live bufs wpcs turn irank iofail Nat.eqb length].
     + lia.
     + change (sumf ld_total (l :: rest)) with (ld_total l + sumf ld_total rest).
-      pose proof (sumf_set_nth brem empty_buf
-                   {| b_st := b_st (getb s (turn S s)); b_total := ld_total l; b_now := 0;
-                      b_final := b_final (getb s (turn S s)) || ld_final l; b_data := blocks16_of (ld_data l) |}
-                   (turn S s) (bufs S s) ltac:(lia)) as Sb.
-      match type of Sb with _ = _ + brem ?b =>
-        assert (Eb' : brem b = ld_total l) by (unfold brem; cbn [b_total b_now]; lia); rewrite Eb' in Sb end.
-      destruct (ld_final l); cbn [Nat.eqb]; lia.
-  - injection H as <- _.
+      set (b' := {| b_st := b_st (getb s (turn S s)); b_total := ld_total l; b_now := 0;
+                    b_final := b_final (getb s (turn S s)) || ld_final l; b_data := blocks16_of (ld_data l) |}).
+      pose proof (sumf_set_nth brem empty_buf b' (turn S s) (bufs S s) ltac:(lia)) as Sb.
+      assert (Eb' : brem b' = ld_total l) by (unfold brem, b'; cbn [b_total b_now]; lia). rewrite Eb' in Sb.
+      assert (Ef : nfw (set_nth (turn S s) b' (bufs S s)) (wpcs S s) = nfw (bufs S s) (wpcs S s)).
+      { apply nfw_ext. intros k Hk. unfold wfl. destruct (Nat.eq_dec (turn S s) k) as [<-|Hne].
+        - rewrite nth_set_nth_eq by lia. apply wfail_st. reflexivity.
+        - rewrite nth_set_nth_neq by exact Hne. reflexivity. }
+      rewrite Ef. destruct (ld_final l); cbn [Nat.eqb]; lia.
+  - (* I_SetReady: the buffer becomes READY / INV, its worker is notified *)
+    injection H as <- _.
     destruct Hio as (HV & _ & _ & Hlv & Hex & _). cbn [io_extra visits_done post_fin] in Hex, Hlv.
     match goal with |- context [wake_worker S ?st ?t] => set (s2 := st) end.
-    pose proof (sumf_wake_worker s2 (turn S s)) as Sw.
-    assert (Eb : bufs S (wake_worker S s2 (turn S s)) = bufs S s2) by (unfold wake_worker; destruct (PipeConc.getw S s2 (turn S s)); reflexivity).
-    assert (Ei : input S (wake_worker S s2 (turn S s)) = input S s2) by (unfold wake_worker; destruct (PipeConc.getw S s2 (turn S s)); reflexivity).
-    assert (El : live S (wake_worker S s2 (turn S s)) = live S s2) by (unfold wake_worker; destruct (PipeConc.getw S s2 (turn S s)); reflexivity).
-    assert (Eo : io S (wake_worker S s2 (turn S s)) = io S s2) by (unfold wake_worker; destruct (PipeConc.getw S s2 (turn S s)); reflexivity).
-    rewrite Eb, Ei, El, Eo. unfold s2 in *. cbn [io input live bufs wpcs set_buf irank] in *.
-    pose proof (sumf_set_nth brem empty_buf
-                  (with_st (getb s (turn S s)) (if loadstate =? 2 then INV else READY))
-                  (turn S s) (bufs S s) ltac:(lia)) as Sb.
-    match type of Sb with _ = _ + brem ?b =>
-      assert (Eb' : brem b = brem (getb s (turn S s))) by reflexivity; rewrite Eb' in Sb end.
-    fold (getb s (turn S s)) in Sb.
+    set (s1 := wake_worker S s2 (turn S s)).
+    set (bt := with_st (getb s (turn S s)) (if loadstate =? 2 then INV else READY)).
+    assert (Hr2 : turn S s < length (wpcs S s2)) by (unfold s2; cbn [wpcs set_buf]; lia).
+    destruct (wake_worker_spec S s2 (turn S s) Hr2) as (Eb & Wlw & _ & Eo & Etn & _ & El & Ei & _ & _ & Wgw & Wog).
+    fold s1 in Eb, Wlw, Eo, Etn, El, Ei, Wgw, Wog.
+    assert (Eb1 : bufs S s1 = set_nth (turn S s) bt (bufs S s)) by exact Eb.
+    assert (Eo1 : io S s1 = I_Turn) by exact Eo.
+    assert (El1 : live S s1 = if loadstate =? 2 then live S s - 1 else live S s) by exact El.
+    assert (Ei1 : input S s1 = input S s) by exact Ei.
+    assert (Sw : sumf wrank (wpcs S s1) <= sumf wrank (wpcs S s)) by exact (sumf_wake_worker s2 (turn S s)).
+    assert (Ef : nfw (bufs S s1) (wpcs S s1) <= nfw (bufs S s) (wpcs S s)).
+    { pose proof (nfw_upd (bufs S s) (wpcs S s) (bufs S s1) (wpcs S s1) (turn S s) ltac:(lia)) as Hu.
+      assert (E0 : wfl (bufs S s1) (wpcs S s1) (turn S s) = 0).
+      { unfold wfl. rewrite Eb1, nth_set_nth_eq by lia. unfold wfail, bt.
+        destruct (nth _ _ _); try reflexivity. destruct (loadstate =? 2); reflexivity. }
+      rewrite E0 in Hu. rewrite Nat.add_0_r in Hu. rewrite <- Hu; [lia|].
+      intros k Hk Hne. unfold wfl. rewrite Eb1, nth_set_nth_neq by congruence.
+      specialize (Wog k Hne). unfold PipeConc.getw in Wog. rewrite Wog. reflexivity. }
+    pose proof (sumf_set_nth brem empty_buf bt (turn S s) (bufs S s) ltac:(lia)) as Sb.
+    assert (Eb' : brem bt = brem (getb s (turn S s))) by reflexivity. rewrite Eb' in Sb.
+    fold (getb s (turn S s)) in Sb. rewrite <- Eb1 in Sb.
+    rewrite Eo1, El1, Ei1. cbn [irank iofail]. clearbody s1. clear s2 Hr2 Wgw Wog Eb El Ei Eo Etn Wlw.
     destruct (loadstate =? 2) eqn:E2.
     + assert (m ls <= q * T + r).
       { destruct (m ls <=? q * T + r) eqn:E; [apply Nat.leb_le in E; exact E|].
         rewrite Hex in E2. destruct (ld_final _); discriminate. }
       lia.
     + lia.
-  - destruct (live S s =? 0).
-    + injection H as <- _. cbn [set_io io input live bufs wpcs irank].
+  - (* I_Turn *)
+    destruct (live S s =? 0).
+    + injection H as <- _. cbn [set_io io input live bufs wpcs turn irank]. rewrite join_iofail. cbn [iofail].
       destruct (join_rank s 0 Lw) as [Hj _]. lia.
-    + injection H as <- _. cbn [io input live bufs wpcs irank]. lia.
-  - destruct (getw s k) eqn:Ew; try discriminate. injection H as <- _.
-    cbn [set_io io input live bufs wpcs irank].
+    + injection H as <- _. cbn [io input live bufs wpcs turn irank iofail]. lia.
+  - (* I_Join *)
+    destruct (getw s k) eqn:Ew; try discriminate. injection H as <- _.
+    cbn [set_io io input live bufs wpcs turn irank]. rewrite join_iofail. cbn [iofail].
     destruct (join_rank s k Lw) as [_ Hj]. specialize (Hj Ew). lia.
 Qed.
 
-Lemma phi_step s tid s' evs :
-  Inv S tr c ispadding T sigma0 ls dS s -> step S tr tr_event c ispadding s tid = Some (s', evs) -> Phi s' < Phi s.
+(* a spurious wake-up: the rank of the thread goes down by one, and there is one more sleeper-to-be *)
+Lemma phi_spurious q r s j s' evs :
+  InvQR q r s -> spurious S s j = Some (s', evs) -> Phi s' <= Phi s + 1.
 Proof.
-  intros (q & r & Hinv) H. unfold step in H. destruct tid as [|i].
+  intros (Lb & Lw & Lx & Hr & Ht & Hio & Hbuf) H. unfold spurious in H. unfold Phi, Phi0, nfail. destruct j as [|i].
+  - destruct (io S s) eqn:Eio; try discriminate. injection H as <- _.
+    cbn [set_io io input live bufs wpcs turn irank]. rewrite getb_set_io.
+    pose proof (iofail_le1 I_Awake (getb s (turn S s))) as H1. cbn [iofail] in *. lia.
+  - destruct (i <? nT S s) eqn:Ei; [|discriminate]. apply Nat.ltb_lt in Ei. unfold nT in Ei.
+    destruct (getw s i) eqn:Ew; try discriminate. injection H as <- _.
+    cbn [set_wpc io input live bufs wpcs turn]. rewrite getb_set_wpc.
+    pose proof (sumf_set_nth wrank W_Done (W_Awake from_start) i (wpcs S s) ltac:(lia)) as Sw.
+    fold (getw s i) in Sw. rewrite Ew in Sw.
+    pose proof (nfw_upd (bufs S s) (wpcs S s) (bufs S s) (set_nth i (W_Awake from_start) (wpcs S s)) i ltac:(lia)) as Hu.
+    assert (E0 : wfl (bufs S s) (wpcs S s) i = 0) by (unfold wfl; fold (getw s i); rewrite Ew; reflexivity).
+    assert (E1 : wfl (bufs S s) (set_nth i (W_Awake from_start) (wpcs S s)) i <= 1) by apply wfail_le1.
+    rewrite E0 in Hu. rewrite Nat.add_0_r in Hu. rewrite Hu.
+    + destruct from_start; cbn [wrank] in Sw; lia.
+    + intros k Hk Hne. unfold wfl. rewrite nth_set_nth_neq by congruence. reflexivity.
+Qed.
+
+Lemma phi_step_real s tid s' evs :
+  Inv S tr c ispadding T sigma0 ls dS s -> step_real S tr tr_event c ispadding s tid = Some (s', evs) -> Phi s' < Phi s.
+Proof.
+  intros (q & r & Hinv) H. unfold step_real in H. destruct tid as [|i].
   - apply (phi_io q r s s' evs Hinv H).
   - destruct (i <? nT S s) eqn:E; [|discriminate]. apply Nat.ltb_lt in E.
     apply (phi_worker q r s i s' evs Hinv); [|exact H].
     destruct Hinv as (Lb & _). unfold nT in E. lia.
 Qed.
 
+(* real steps decrease the potential, a spurious step increases it by at most 1 *)
+Lemma phi_step s tid s' evs :
+  Inv S tr c ispadding T sigma0 ls dS s -> step S tr tr_event c ispadding s tid = Some (s', evs) ->
+  if T <? tid then Phi s' <= Phi s + 1 else Phi s' < Phi s.
+Proof.
+  intros Hinv H. unfold step in H.
+  assert (EnT : nT S s = T) by (destruct Hinv as (q & r & Lb & _); exact Lb). rewrite EnT in H.
+  destruct (Nat.leb_spec tid T) as [Hle|Hgt].
+  - assert (E : (T <? tid) = false) by (apply Nat.ltb_ge; exact Hle). rewrite E.
+    apply (phi_step_real s tid s' evs Hinv H).
+  - assert (E : (T <? tid) = true) by (apply Nat.ltb_lt; exact Hgt). rewrite E.
+    destruct Hinv as (q & r & Hinv). apply (phi_spurious q r s _ s' evs Hinv H).
+Qed.
+
 Lemma phi_run : forall sched s s', Inv S tr c ispadding T sigma0 ls dS s ->
-  run S tr tr_event c ispadding s sched = Some s' -> length sched + Phi s' <= Phi s.
+  run S tr tr_event c ispadding s sched = Some s' -> length sched + Phi s' <= Phi s + 2 * spurious_count T sched.
 Proof.
   induction sched as [|t sched IH]; intros s s' Hinv H; cbn [run] in H.
   - injection H as <-. cbn [length]. lia.
   - destruct (step S tr tr_event c ispadding s t) as [[s1 evs]|] eqn:E; [|discriminate].
     pose proof (phi_step s t s1 evs Hinv E) as Hd.
     pose proof (inv_step S tr tr_event c ispadding T sigma0 ls dS HT Hsig Hwf s t s1 evs Hinv E) as Hinv1.
-    specialize (IH s1 s' Hinv1 H). cbn [length]. lia.
+    specialize (IH s1 s' Hinv1 H). unfold spurious_count in *. cbn [length filter].
+    destruct (T <? t); cbn [length]; lia.
 Qed.
 End Term.
 
-Lemma C04_bounded_steps_proof : forall (S : Type) (tr : S -> list N -> S * list N) (tr_event : nat -> S -> list event)
-  (c : nat) (ispadding : bool) T sigma0 ls,
-  1 <= T -> length sigma0 = T -> wf_loads ls ->
-  exists B, forall sched s, run S tr tr_event c ispadding (init S T sigma0 ls) sched = Some s -> length sched <= B.
+Lemma spurious_count_none T sched : (forall t, In t sched -> t <= T) -> spurious_count T sched = 0.
 Proof.
-  intros S tr tr_event c ispadding T sigma0 ls HT Hsig Hwf.
-  exists (Phi S T (init S T sigma0 ls)). intros sched s Hrun.
+  unfold spurious_count. induction sched as [|t sched IH]; intros H; [reflexivity|].
+  cbn [filter]. assert (E : (T <? t) = false) by (apply Nat.ltb_ge; apply H; left; reflexivity).
+  rewrite E. apply IH. intros t' Ht'. apply H. right. exact Ht'.
+Qed.
+
+Lemma Phi_run_init (S : Type) (tr : S -> list N -> S * list N) (tr_event : nat -> S -> list event)
+  (c : nat) (ispadding : bool) T sigma0 ls sched s :
+  1 <= T -> length sigma0 = T -> wf_loads ls ->
+  run S tr tr_event c ispadding (init S T sigma0 ls) sched = Some s ->
+  length sched <= Phi S T (init S T sigma0 ls) + 2 * spurious_count T sched.
+Proof.
+  intros HT Hsig Hwf Hrun.
   destruct sigma0 as [|x0 rest] eqn:E; [cbn in Hsig; lia|]. rewrite <- E in *.
   pose proof (phi_run S tr tr_event c ispadding T sigma0 ls x0 HT Hsig Hwf sched _ s
                 (ex_intro _ 0 (ex_intro _ 0 (inv_init S tr tr_event c ispadding T sigma0 ls x0 HT Hsig))) Hrun) as H.
   lia.
 Qed.
 
+(* every spurious wake-up costs itself and at most one more step (the re-test that goes back to sleep) *)
+Lemma C04_bounded_steps_proof : forall (S : Type) (tr : S -> list N -> S * list N) (tr_event : nat -> S -> list event)
+  (c : nat) (ispadding : bool) T sigma0 ls,
+  1 <= T -> length sigma0 = T -> wf_loads ls ->
+  exists B, forall sched s, run S tr tr_event c ispadding (init S T sigma0 ls) sched = Some s ->
+    length sched <= B + 2 * spurious_count T sched.
+Proof.
+  intros S tr tr_event c ispadding T sigma0 ls HT Hsig Hwf.
+  exists (Phi S T (init S T sigma0 ls)). intros sched s Hrun.
+  apply (Phi_run_init S tr tr_event c ispadding T sigma0 ls sched s HT Hsig Hwf Hrun).
+Qed.
+
+Lemma C04_bounded_steps_without_spurious_proof : forall (S : Type) (tr : S -> list N -> S * list N) (tr_event : nat -> S -> list event)
+  (c : nat) (ispadding : bool) T sigma0 ls,
+  1 <= T -> length sigma0 = T -> wf_loads ls ->
+  exists B, forall sched s, run S tr tr_event c ispadding (init S T sigma0 ls) sched = Some s ->
+    (forall t, In t sched -> t <= T) -> length sched <= B.
+Proof.
+  intros S tr tr_event c ispadding T sigma0 ls HT Hsig Hwf.
+  exists (Phi S T (init S T sigma0 ls)). intros sched s Hrun Hreal.
+  pose proof (Phi_run_init S tr tr_event c ispadding T sigma0 ls sched s HT Hsig Hwf Hrun) as H.
+  rewrite (spurious_count_none T sched Hreal) in H. lia.
+Qed.
+
 (* the bound, explicitly: 8*(m + T) + (T + 9) + 6 * (number of blocks) + 10 * T *)
 Lemma Phi_init (S : Type) T (sigma0 : list S) ls :
   Phi S T (init S T sigma0 ls) = 8 * (length ls + T) + (T + 9) + 6 * sumf ld_total ls + 10 * T.
 Proof.
-  unfold Phi, init. cbn [input live io bufs wpcs irank].
+  unfold Phi, Phi0, nfail, init. cbn [input live io bufs wpcs turn irank iofail].
   assert (E1 : sumf brem (repeat empty_buf T) = 0) by (induction T as [|n IH]; [reflexivity|cbn; exact IH]).
   assert (E2 : sumf wrank (repeat W_New T) = 10 * T).
   { induction T as [|n IH]; [reflexivity|]. cbn [repeat sumf fold_right wrank]. unfold sumf in IH. lia. }
-  rewrite E1, E2. lia.
+  assert (E3 : nfw T (repeat empty_buf T) (repeat W_New T) = 0).
+  { unfold nfw. apply sumf_zero. intros k. unfold wfl.
+    destruct (nth_in_or_default k (repeat W_New T) W_Done) as [Hin| ->]; [|reflexivity].
+    apply repeat_spec in Hin. rewrite Hin. reflexivity. }
+  rewrite E1, E2, E3. lia.
 Qed.
 
 (* the same with the bound spelled out (m = length ls chunks, sumf ld_total ls blocks in total) *)
@@ -247,14 +413,12 @@ Lemma C04_bounded_steps_explicit_proof : forall (S : Type) (tr : S -> list N -> 
   (c : nat) (ispadding : bool) T sigma0 ls sched s,
   1 <= T -> length sigma0 = T -> wf_loads ls ->
   run S tr tr_event c ispadding (init S T sigma0 ls) sched = Some s ->
-  length sched <= 8 * (length ls + T) + (T + 9) + 6 * sumf ld_total ls + 10 * T.
+  length sched <= 8 * (length ls + T) + (T + 9) + 6 * sumf ld_total ls + 10 * T + 2 * spurious_count T sched.
 Proof.
   intros S tr tr_event c ispadding T sigma0 ls sched s HT Hsig Hwf Hrun.
   rewrite <- (Phi_init S T sigma0 ls).
-  destruct sigma0 as [|x0 rest] eqn:E; [cbn in Hsig; lia|]. rewrite <- E in *.
-  pose proof (phi_run S tr tr_event c ispadding T sigma0 ls x0 HT Hsig Hwf sched _ s
-                (ex_intro _ 0 (ex_intro _ 0 (inv_init S tr tr_event c ispadding T sigma0 ls x0 HT Hsig))) Hrun) as H.
-  lia.
+  apply (Phi_run_init S tr tr_event c ispadding T sigma0 ls sched s HT Hsig Hwf Hrun).
 Qed.
 Print Assumptions C04_bounded_steps_proof.
+Print Assumptions C04_bounded_steps_without_spurious_proof.
 Print Assumptions C04_bounded_steps_explicit_proof.
